@@ -28,6 +28,8 @@ type sshdItem struct {
 	// the client-chosen field of this line (user name of a failure line, key id of a certificate login) holds text that
 	// looks like another record: see hostile.go
 	Hostile *hostileInfo `json:"hostile,omitempty"`
+	// Episode: the line is not part of a phase; the NEW writer of the writer-restart episode writes it (reader.go)
+	Episode bool `json:"after_writer_restart,omitempty"`
 }
 
 func (s sshdItem) accepted() bool { return strings.HasPrefix(s.Kind, "accepted") }
@@ -65,6 +67,9 @@ type auditItem struct {
 	// EXECVE only: bytes of the argument list (0 = two short arguments).  The UserAction carries the arguments
 	// (metadata.extra.process_args), so its JSON line is about that long: beyond PIPE_BUF / one page and up to 70 KiB
 	ArgBytes int `json:"arg_bytes,omitempty"`
+	// EXECVE only: bytes of the executable's path in the event's first PATH record (0 = a short one); the UserAction's
+	// object is that path
+	PathBytes int `json:"path_bytes,omitempty"`
 }
 
 // sessionPlan: one (would-be) SSH session.
@@ -112,6 +117,10 @@ type scenario struct {
 	Sshd       []sshdItem    `json:"sshd"`
 	Audit      []auditItem   `json:"audit"`
 	Phases     []phase       `json:"phases"`
+	// reader-level input classes (reader.go): the last phase holds long records, bursts written in one piece; Restart:
+	// after the sentinel the sshd writer leaves an unterminated record behind and closes, a new writer continues
+	ReaderLevel bool         `json:"reader_level,omitempty"`
+	Restart     *restartPlan `json:"writer_restart,omitempty"`
 }
 
 // pids / session ids of generated sessions stay below these; the harness' own sentinel uses them
@@ -119,6 +128,10 @@ const (
 	sentinelPID  = 3999999
 	sentinelSes  = 3999998
 	sentinelUser = "verif-sentinel"
+	// the second sentinel: written by the new writer of a writer-restart episode (reader.go)
+	sentinel2PID  = 3999997
+	sentinel2Ses  = 3999996
+	sentinel2User = "verif-sentinel-2"
 	stormPID     = 5000000 // pids of the burst lines: stormPID + i
 	unsetSes     = "4294967295"
 )
@@ -266,12 +279,25 @@ func renderAudit(r *hutil.Rand, a *auditItem, acct string) string {
 			execve = sb.String()
 			arg = "-big"
 		}
+		exePath := "/usr/bin/" + prog
+		if a.PathBytes > 0 {
+			const plain = "abcdefghijklmnopqrstuvwxyz0123456789-_."
+			var sb strings.Builder
+			sb.WriteString("/opt")
+			for sb.Len() < a.PathBytes {
+				sb.WriteByte('/')
+				for k := 3 + r.Intn(40); k > 0; k-- {
+					sb.WriteByte(plain[r.Intn(len(plain))])
+				}
+			}
+			exePath = sb.String() + "/" + prog
+		}
 		lines := []string{
 			fmt.Sprintf("type=SYSCALL msg=%s: arch=c000003e syscall=59 success=yes exit=0 a0=56430ae99960 a1=56430aea8040 a2=56430aef7f30 a3=8 items=2 ppid=%d pid=%d auid=%s uid=1000 gid=1000 euid=1000 suid=1000 fsuid=1000 egid=1000 sgid=1000 fsgid=1000 tty=pts3 ses=%s comm=\"%s\" exe=\"/usr/bin/%s\" key=\"operator-commands\"",
 				stamp, a.PID, a.PID+1+r.Intn(50), auid, a.Ses, prog, prog),
 			execve,
 			fmt.Sprintf("type=CWD msg=%s: cwd=\"/home/u\"", stamp),
-			fmt.Sprintf("type=PATH msg=%s: item=0 name=\"/usr/bin/%s\" inode=1442550 dev=fd:00 mode=0100755 ouid=0 ogid=0 rdev=00:00 nametype=NORMAL cap_fp=0 cap_fi=0 cap_fe=0 cap_fver=0 cap_frootid=0", stamp, prog),
+			fmt.Sprintf("type=PATH msg=%s: item=0 name=\"%s\" inode=1442550 dev=fd:00 mode=0100755 ouid=0 ogid=0 rdev=00:00 nametype=NORMAL cap_fp=0 cap_fi=0 cap_fe=0 cap_fver=0 cap_frootid=0", stamp, exePath),
 			fmt.Sprintf("type=PATH msg=%s: item=1 name=\"/lib64/ld-linux-x86-64.so.2\" inode=1448144 dev=fd:00 mode=0100755 ouid=0 ogid=0 rdev=00:00 nametype=NORMAL cap_fp=0 cap_fi=0 cap_fe=0 cap_fver=0 cap_frootid=0", stamp),
 			fmt.Sprintf("type=PROCTITLE msg=%s: proctitle=%s", stamp, strings.ToUpper(hex.EncodeToString([]byte(prog+"\x00"+arg)))),
 		}
